@@ -319,3 +319,34 @@ func vfLongestORF(L int) {
 	verifReach("has-orf")
 	verifAssert(start >= 0 && end <= L && end-start == want, "the reported ORF is as long as the longest ATG...stop frame of the sequence")
 }
+
+// H_C16_noref_inputs_kept: without reference ORF (the longest ORF of the input is used), on one or both strands, the result stream is closed, there is one result per input and the input sequences are not modified, whatever nucleotide codes they hold.
+// bounds: the two 11-nt sequences of vfOrfBag (one residue at any position replaced by any IUPAC nucleotide code in either case, U/u included), reverse on/off, nucleotide mode, 1 worker, default schedule
+// outside: longer inputs, translated mode, more workers (see H_C16_sched_phase)
+func H_C16_noref_inputs_kept() {
+	sb, saved := vfOrfBag()
+	ph := NewPhaser()
+	ph.SetReverse(nondetBool())
+	ch, err := ph.Phase(nil, sb)
+	if err != nil {
+		verifReach("no ORF in the input: error")
+		verifAssert(vfBagUnchanged(sb, saved), "inputs are not modified when no ORF is found")
+		return
+	}
+	res, nerr := vfCollect(ch)
+	verifReach("closed")
+	if nerr == 0 {
+		verifReach("no alignment error")
+		verifAssert(len(res) == 2, "exactly one result per input sequence")
+		verifAssert(vfFindRes(res, vfNames[0]) >= 0 && vfFindRes(res, vfNames[1]) >= 0, "each input has exactly one result")
+	}
+	verifAssert(vfBagUnchanged(sb, saved), "inputs are not modified")
+}
+
+// H_C16_workers_exceed: more worker threads than input sequences: the stream is still closed, with one result per input.
+// bounds: the 2 concrete inputs of H_C16_sched_phase, 1..5 workers, nucleotide and translated mode, default schedule (the current thread runs until it blocks, then the lowest-numbered runnable one), deadlock detection and race check on
+// outside: other schedules for more than 2 workers
+//verif: race=1
+func H_C16_workers_exceed() {
+	vfSchedPhase(nondetBool(), nondetRange(1, 5))
+}
